@@ -1,6 +1,6 @@
 (* Extraction of the executable model and specification to OCaml.  Only ExtrOcamlBasic's directives
    are in effect; nat, positive, N, Z stay the extracted Coq datatypes. *)
-From WV Require Import Abs FenSpec Table Eval SanSpec Search Uci Book GameValue.
+From WV Require Import Abs FenSpec Table Eval SanSpec Search Conc Uci Book GameValue.
 Require Extraction.
 Require ExtrOcamlBasic.
 Extraction Language OCaml.
@@ -27,6 +27,7 @@ Separate Extraction
   Book.game_entries Book.build Book.lookup Book.clean_tokens
   Uci.step Uci.run Uci.collect Uci.fresh Uci.tokens
   Search.analyze_iterative Search.analyze Search.quiesce Search.iter_moves
+  Conc.analyze_iterativeM Conc.run_workers Conc.analyzeP
   SanSpec.spellings SanSpec.long_form SanSpec.illegal_pseudo_moves
   Eval.evaluate Eval.estimate Eval.heuristic Eval.mate_in_ply Eval.is_terminal
   Table.acc_find Table.acc_insert Table.acc_entries Table.acc_max_entries Table.empty_access Table.acc_run Table.spec_find Table.spec_step
